@@ -8,8 +8,11 @@ named in the doc-comments (`get_indexer`, fancy assignment, `reindex`, `Index.di
 `Series.equals`, `astype`, `.loc`, `query`). -/
 namespace Viv.Table
 
-/-- column dtypes the harness uses; `obj` only arises by promotion of a `bool` column when rows are added -/
-inductive Dtype | int | flt | str | bool | time | obj
+/-- dtypes the harness uses. Columns: `int64`, `float64`, `str`, `bool`, `datetime64[ns]`, `category`
+(`cat`, one fixed set of categories; cells are strings), and `object` (`obj`: arises by promotion of a `bool`
+column when rows are added; also object-dtype updates). `i32` / `f32` (`int32` / `float32`) only ever occur
+as the dtype of an update: to the code they are just "another dtype". -/
+inductive Dtype | int | flt | str | bool | time | obj | cat | i32 | f32
 deriving DecidableEq, Repr
 
 inductive Val
@@ -40,6 +43,9 @@ def valOk : Dtype → Val → Bool
   | .bool, .bool _ => true
   | .time, .time _ => true | .time, .null => true
   | .obj, _ => true
+  | .cat, .str _ => true | .cat, .null => true
+  | .i32, .int _ => true
+  | .f32, .flt _ _ => true | .f32, .null => true
   | _, _ => false
 
 def Table.empty : Table := ⟨[], []⟩
@@ -319,6 +325,7 @@ def atomTyped (d : Dtype) (op : Cmp) (c : Val) : Bool :=
   | .int, .int _ => true | .int, .flt _ _ => true
   | .flt, .int _ => true | .flt, .flt _ _ => true
   | .str, .str _ => op == .eq || op == .ne
+  | .cat, .str _ => op == .eq || op == .ne
   | .bool, .bool _ => op == .eq || op == .ne
   | .obj, .bool _ => op == .eq || op == .ne
   | .time, .time _ => true
